@@ -75,7 +75,7 @@ func (w *escapeeWriter) Write(b []byte) (int, error) {
 type Runtime struct {
 	*escapeeWriter
 	*scope
-	content func(*Runtime, Expression)
+	content func(*Runtime, Expression) reflect.Value
 
 	context reflect.Value
 }
@@ -336,7 +336,7 @@ func (st *Runtime) executeLetList(set *SetNode) {
 	}
 }
 
-func (st *Runtime) executeYieldBlock(block *BlockNode, blockParam, yieldParam *BlockParameterList, expression Expression, content *ListNode) {
+func (st *Runtime) executeYieldBlock(block *BlockNode, blockParam, yieldParam *BlockParameterList, expression Expression, content *ListNode) (returnValue reflect.Value) {
 
 	needNewScope := len(blockParam.List) > 0 || len(yieldParam.List) > 0
 	if needNewScope {
@@ -365,7 +365,7 @@ func (st *Runtime) executeYieldBlock(block *BlockNode, blockParam, yieldParam *B
 	mycontent := st.content
 	if content != nil {
 		myscope := st.scope
-		st.content = func(st *Runtime, expression Expression) {
+		st.content = func(st *Runtime, expression Expression) (returnValue reflect.Value) {
 			outscope := st.scope
 			outcontent := st.content
 
@@ -375,30 +375,32 @@ func (st *Runtime) executeYieldBlock(block *BlockNode, blockParam, yieldParam *B
 			if expression != nil {
 				context := st.context
 				st.context = st.evalPrimaryExpressionGroup(expression)
-				st.executeList(content)
+				returnValue = st.executeList(content)
 				st.context = context
 			} else {
-				st.executeList(content)
+				returnValue = st.executeList(content)
 			}
 
 			st.scope = outscope
 			st.content = outcontent
+			return returnValue
 		}
 	}
 
 	if expression != nil {
 		context := st.context
 		st.context = st.evalPrimaryExpressionGroup(expression)
-		st.executeList(block.List)
+		returnValue = st.executeList(block.List)
 		st.context = context
 	} else {
-		st.executeList(block.List)
+		returnValue = st.executeList(block.List)
 	}
 
 	st.content = mycontent
 	if needNewScope {
 		st.releaseScope()
 	}
+	return returnValue
 }
 
 func (st *Runtime) executeList(list *ListNode) (returnValue reflect.Value) {
@@ -541,14 +543,14 @@ func (st *Runtime) executeList(list *ListNode) (returnValue reflect.Value) {
 			node := node.(*YieldNode)
 			if node.IsContent {
 				if st.content != nil {
-					st.content(st, node.Expression)
+					returnValue = st.content(st, node.Expression)
 				}
 			} else {
 				block, has := st.getBlock(node.Name)
 				if has == false || block == nil {
 					node.errorf("unresolved block %q!!", node.Name)
 				}
-				st.executeYieldBlock(block, block.Parameters, node.Parameters, node.Expression, node.Content)
+				returnValue = st.executeYieldBlock(block, block.Parameters, node.Parameters, node.Expression, node.Content)
 			}
 		case NodeBlock:
 			node := node.(*BlockNode)
@@ -556,7 +558,7 @@ func (st *Runtime) executeList(list *ListNode) (returnValue reflect.Value) {
 			if has == false {
 				block = node
 			}
-			st.executeYieldBlock(block, block.Parameters, block.Parameters, block.Expression, block.Content)
+			returnValue = st.executeYieldBlock(block, block.Parameters, block.Parameters, block.Expression, block.Content)
 		case NodeInclude:
 			node := node.(*IncludeNode)
 			returnValue = st.executeInclude(node)
